@@ -144,3 +144,21 @@ func TestFixed_D8_props_double_redeem(t *testing.T) {
 		seen[v] = true
 	}
 }
+
+// D9 (fixed): NewSpecValidator copied the package-level defaultOpts without taking defaultOptsMutex while
+// SetContinueOnErrors writes it under that mutex. Run with `go test -race`: on the tree before the fix the race
+// detector reports the unsynchronised read (spec.go, NewSpecValidator) against the write (options.go); after it, none.
+func TestFixed_D9_defaultOpts_race(t *testing.T) {
+	done := make(chan struct{})
+	go func() {
+		defer close(done)
+		for i := 0; i < 2000; i++ {
+			SetContinueOnErrors(i%2 == 0)
+		}
+	}()
+	for i := 0; i < 2000; i++ {
+		_ = NewSpecValidator(nil, nil)
+	}
+	<-done
+	SetContinueOnErrors(false)
+}
